@@ -38,7 +38,10 @@ TBs == 1..Len(scripts)
 (* of r and bit 1 by the fragment of q (same next-state functions); "mem" is a memory row with two write ports  *)
 (* in two clock domains whose edges coincide, each writing one granule with the same data: both always hold    *)
 (* r + 2 * q, whatever the order in which the two ready processes ran                                           *)
-Val(s) == IF s \in {"rq", "mem"} THEN curr["r"] + 2 * curr["q"] ELSE curr[s]
+(* "xy" is ONE two-bit signed combinational signal whose bit 0 is driven by the fragment computing x and bit 1 by   *)
+(* the fragment computing y (same functions): it always holds x + 2 * y (as a bit pattern)                          *)
+Val(s) == IF s \in {"rq", "mem"} THEN curr["r"] + 2 * curr["q"]
+          ELSE IF s = "xy" THEN curr["x"] + 2 * curr["y"] ELSE curr[s]
 TT(t, i, j) == (t \div (2 ^ (i + 2 * j))) % 2            \* truth table t applied to (i, j)
 Fun(p, vals) == IF p = "CLK" THEN 1 - vals["clk"]
                 ELSE TT(fn[p], vals[Ins[p][1]], vals[Ins[p][2]])
